@@ -20,30 +20,30 @@ import (
 	"github.com/MixinNetwork/mixin/crypto"
 )
 
-type aggSigned struct {
+type c14AggSigned struct {
 	keys    string // the selected (index, key) pairs: what the transcript binds (unselected entries play no role)
 	signers string
 	msg     string
 }
 
-type aggState struct {
+type c14AggState struct {
 	pubs     []*crypto.Key
 	pubDl    []*big.Int
-	signed   map[string]aggSigned // "R S" -> what it was produced for
-	nonces   map[string]string    // R -> challenge it was used with
-	panicked bool                 // the transcript/coefficient code panicked in the last oracle call
+	signed   map[string]c14AggSigned // "R S" -> what it was produced for
+	nonces   map[string]string       // R -> challenge it was used with
+	panicked bool                    // the transcript/coefficient code panicked in the last oracle call
 }
 
-func aggGet(st *State) *aggState {
-	if v, ok := st.V["agg"].(*aggState); ok {
+func c14AggGet(st *State) *c14AggState {
+	if v, ok := st.V["agg"].(*c14AggState); ok {
 		return v
 	}
-	v := &aggState{signed: map[string]aggSigned{}, nonces: map[string]string{}}
+	v := &c14AggState{signed: map[string]c14AggSigned{}, nonces: map[string]string{}}
 	st.V["agg"] = v
 	return v
 }
 
-func parseIntList(s string) []int {
+func c14ParseIntList(s string) []int {
 	if s == "-" {
 		return nil
 	}
@@ -58,7 +58,7 @@ func parseIntList(s string) []int {
 	return out
 }
 
-func joinBig(xs []*big.Int) string {
+func c14JoinBig(xs []*big.Int) string {
 	if len(xs) == 0 {
 		return "-"
 	}
@@ -70,7 +70,7 @@ func joinBig(xs []*big.Int) string {
 }
 
 // signer list well-formed for this vector: non-empty, strictly increasing, in range, decodable keys
-func (as *aggState) wellFormed(signers []int) bool {
+func (as *c14AggState) wellFormed(signers []int) bool {
 	if len(signers) == 0 {
 		return false
 	}
@@ -85,7 +85,7 @@ func (as *aggState) wellFormed(signers []int) bool {
 }
 
 // selected (index, key) pairs of a well-formed signer list
-func (as *aggState) selectedText(signers []int) string {
+func (as *c14AggState) selectedText(signers []int) string {
 	var sb strings.Builder
 	for _, i := range signers {
 		if i >= 0 && i < len(as.pubs) && as.pubs[i] != nil {
@@ -95,26 +95,26 @@ func (as *aggState) selectedText(signers []int) string {
 	return sb.String()
 }
 
-func (as *aggState) oracles(signers []int) (A crypto.Key, w []*big.Int, transcript []byte, ok bool) {
+func (as *c14AggState) oracles(signers []int) (A crypto.Key, w []*big.Int, transcript []byte, ok bool) {
 	defer func() {
 		if e := recover(); e != nil {
 			as.panicked = true
 			ok = false
 		}
 	}()
-	key, coeffs, tr, err := crypto.VerifAggregateWeighted(as.pubs, signers)
+	key, coeffs, tr, err := crypto.VerifC14AggregateWeighted(as.pubs, signers)
 	if err != nil {
 		return crypto.Key{}, nil, nil, false
 	}
 	for _, c := range coeffs {
-		w = append(w, bytesScalar(c[:]))
+		w = append(w, c12BytesScalar(c[:]))
 	}
 	return key, w, tr, true
 }
 
-func execAggSig(st *State, line string) Result {
+func c14ExecAggSig(st *State, line string) Result {
 	t := strings.Fields(line)
-	as := aggGet(st)
+	as := c14AggGet(st)
 	res := Result{Tags: []string{t[0]}}
 	switch t[0] {
 	case "reset":
@@ -131,8 +131,8 @@ func execAggSig(st *State, line string) Result {
 			copy(k[:], UnHex(p[1]))
 			var d *big.Int
 			if p[0] != "x" {
-				d = modL(parseBigTok(p[0]))
-				if pointOf(d) != k {
+				d = c12ModL(c12ParseBigTok(p[0]))
+				if c12PointOf(d) != k {
 					panic("harness: key token bytes do not match the discrete log")
 				}
 			}
@@ -140,7 +140,7 @@ func execAggSig(st *State, line string) Result {
 		}
 		res.Out = "ok"
 	case "transcript":
-		signers := parseIntList(t[1])
+		signers := c14ParseIntList(t[1])
 		as.panicked = false
 		_, _, tr, ok := as.oracles(signers)
 		res.Out = "err"
@@ -169,7 +169,7 @@ func execAggSig(st *State, line string) Result {
 			res.PropKey, res.PropDesc = "C14:panic", "collectAggregateSigners panicked on signer list "+t[1]
 		}
 	case "sign": // sign <signers> <privs> <seed hex> <msg> [w z x]
-		signers := parseIntList(t[1])
+		signers := c14ParseIntList(t[1])
 		var privs []*crypto.Key
 		var ys []*big.Int
 		if t[2] != "-" {
@@ -178,8 +178,8 @@ func execAggSig(st *State, line string) Result {
 					privs, ys = append(privs, nil), append(ys, nil)
 					continue
 				}
-				y := parseBigTok(p)
-				k := crypto.Key(scalarBytes(y))
+				y := c12ParseBigTok(p)
+				k := crypto.Key(c12ScalarBytes(y))
 				privs, ys = append(privs, &k), append(ys, y)
 			}
 		}
@@ -205,23 +205,23 @@ func execAggSig(st *State, line string) Result {
 			if !ok {
 				panic("harness: signed but the aggregate key does not exist")
 			}
-			xb, err := crypto.VerifAggregateChallenge(sig[:32], A[:], msg)
+			xb, err := crypto.VerifC14AggregateChallenge(sig[:32], A[:], msg)
 			if err != nil {
 				panic(err)
 			}
-			x := bytesScalar(xb[:])
-			S := bytesScalar(sig[32:])
+			x := c12BytesScalar(xb[:])
+			S := c12BytesScalar(sig[32:])
 			// nonce sum recovered from the private keys: z = S − x·Σ wᵢ yᵢ ; R must be z•B
 			dot := new(big.Int)
 			for i, y := range ys {
 				dot.Add(dot, new(big.Int).Mul(w[i], y))
 			}
-			z := modL(new(big.Int).Sub(S, new(big.Int).Mul(x, modL(dot))))
+			z := c12ModL(new(big.Int).Sub(S, new(big.Int).Mul(x, c12ModL(dot))))
 			zs := "unknown"
-			if p := pointOf(z); string(p[:]) == string(sig[:32]) {
+			if p := c12PointOf(z); string(p[:]) == string(sig[:32]) {
 				zs = z.String()
 			}
-			wTok, zTok, xTok = joinBig(w), z.String(), x.String()
+			wTok, zTok, xTok = c14JoinBig(w), z.String(), x.String()
 			res.Out = fmt.Sprintf("ok %s %s", zs, S)
 			res.Nontrivial = true
 			// (a) what was signed verifies
@@ -236,7 +236,7 @@ func execAggSig(st *State, line string) Result {
 				res.PropKey, res.PropDesc = "C14:nonce-reuse", "AggregateSign used one nonce commitment R for two different challenges"
 			}
 			as.nonces[zs] = x.String()
-			as.signed[fmt.Sprintf("%s %s", zs, S)] = aggSigned{keys: as.selectedText(signers), signers: t[1], msg: t[4]}
+			as.signed[fmt.Sprintf("%s %s", zs, S)] = c14AggSigned{keys: as.selectedText(signers), signers: t[1], msg: t[4]}
 		}
 		if out == "ok" && !as.wellFormed(signers) {
 			res.PropKey, res.PropDesc = "C14:malformed-signers", "AggregateSign accepted signer list "+t[1]
@@ -244,26 +244,26 @@ func execAggSig(st *State, line string) Result {
 		// subset of private keys / wrong keys must not sign
 		if out == "ok" && as.wellFormed(signers) && len(ys) == len(signers) {
 			for i, y := range ys {
-				if y == nil || modL(y).Cmp(as.pubDl[signers[i]]) != 0 {
+				if y == nil || c12ModL(y).Cmp(as.pubDl[signers[i]]) != 0 {
 					res.PropKey, res.PropDesc = "C14:foreign-key-signed", fmt.Sprintf("private key %d does not belong to signer %d", i, signers[i])
 				}
 			}
 		}
 		res.LeanIn = strings.Join([]string{"sign", t[1], t[2], t[3], t[4], wTok, zTok, xTok}, " ")
-		res.Tags = append(res.Tags, "sign:"+out, fmt.Sprintf("sign:signers<=%d", sizeBucket(len(signers))))
+		res.Tags = append(res.Tags, "sign:"+out, fmt.Sprintf("sign:signers<=%d", c14SizeBucket(len(signers))))
 	case "verify": // verify <signers> <R|n> <S> <msg> [w x]
-		signers := parseIntList(t[1])
+		signers := c14ParseIntList(t[1])
 		var msg crypto.Hash
 		copy(msg[:], UnHex(t[4]))
 		var sig *crypto.Signature
 		var rDl *big.Int
-		S := parseBigTok(t[3])
+		S := c12ParseBigTok(t[3])
 		if t[2] != "n" {
-			k, d := parsePointTok(t[2])
+			k, d := c12ParsePointTok(t[2])
 			rDl = d
 			sig = new(crypto.Signature)
 			copy(sig[:32], k[:])
-			sb := scalarBytes(S)
+			sb := c12ScalarBytes(S)
 			copy(sig[32:], sb[:])
 		}
 		out, _, _ := Catch(func() string {
@@ -279,17 +279,17 @@ func execAggSig(st *State, line string) Result {
 		wTok, xTok := "-", "0"
 		want := false
 		if A, w, _, ok := as.oracles(signers); ok && sig != nil {
-			xb, err := crypto.VerifAggregateChallenge(sig[:32], A[:], msg)
+			xb, err := crypto.VerifC14AggregateChallenge(sig[:32], A[:], msg)
 			if err != nil {
 				panic(err)
 			}
-			x := bytesScalar(xb[:])
-			wTok, xTok = joinBig(w), x.String()
+			x := c12BytesScalar(xb[:])
+			wTok, xTok = c14JoinBig(w), x.String()
 			a := new(big.Int)
 			for i, s := range signers {
 				a.Add(a, new(big.Int).Mul(w[i], as.pubDl[s]))
 			}
-			want = dlVerify(modL(a), rDl, S, x)
+			want = c12DlVerify(c12ModL(a), rDl, S, x)
 		}
 		if (out == "ok") != want {
 			res.PropKey, res.PropDesc = "C14:verify-decision", fmt.Sprintf("AggregateVerify -> %s, algebra says ok=%v", out, want)
@@ -316,7 +316,7 @@ func execAggSig(st *State, line string) Result {
 	return res
 }
 
-func sizeBucket(n int) int {
+func c14SizeBucket(n int) int {
 	for _, b := range []int{0, 1, 2, 4, 8, 16, 64, 300} {
 		if n <= b {
 			return b
@@ -325,12 +325,12 @@ func sizeBucket(n int) int {
 	return 1 << 20
 }
 
-func keyTok(d *big.Int) string {
-	k := pointOf(d)
+func c14KeyTok(d *big.Int) string {
+	k := c12PointOf(d)
 	return d.String() + ":" + Hex(k[:])
 }
 
-func intsTok(xs []int) string {
+func c14IntsTok(xs []int) string {
 	if len(xs) == 0 {
 		return "-"
 	}
@@ -341,12 +341,12 @@ func intsTok(xs []int) string {
 	return strings.Join(ss, ",")
 }
 
-func genAggSigCase(r *Rand, idx int, tier string) []string {
+func c14GenAggSigCase(r *Rand, idx int, tier string) []string {
 	sh := &State{V: map[string]any{}}
 	var lines []string
 	emit := func(l string) Result {
 		lines = append(lines, l)
-		return execAggSig(sh, l)
+		return c14ExecAggSig(sh, l)
 	}
 	emit("reset")
 	n := Pick(r, []int{1, 2, 3, 4, 5, 8, 12})
@@ -359,8 +359,8 @@ func genAggSigCase(r *Rand, idx int, tier string) []string {
 	privs := make([]*big.Int, n)
 	toks := make([]string, n)
 	for i := range privs {
-		privs[i] = randScalar(r)
-		toks[i] = keyTok(privs[i])
+		privs[i] = c12RandScalar(r)
+		toks[i] = c14KeyTok(privs[i])
 	}
 	if r.Chance(1, 12) {
 		i := r.Intn(n)
@@ -369,9 +369,9 @@ func genAggSigCase(r *Rand, idx int, tier string) []string {
 		case 0:
 			toks[i] = "n"
 		case 1:
-			toks[i] = keyTok(new(big.Int)) // identity
+			toks[i] = c14KeyTok(new(big.Int)) // identity
 		default:
-			toks[i] = "x:" + genBadPoint(r)
+			toks[i] = "x:" + c12GenBadPoint(r)
 		}
 	}
 	if tier != "quick" && idx%997 == 5 { // vector longer than 0xFFFF: AggregateSign refuses such an index
@@ -379,9 +379,9 @@ func genAggSigCase(r *Rand, idx int, tier string) []string {
 		for i := range big {
 			big[i] = "n"
 		}
-		y, y3 := randScalar(r), randScalar(r)
-		big[65536] = keyTok(y)
-		big[3] = keyTok(y3)
+		y, y3 := c12RandScalar(r), c12RandScalar(r)
+		big[65536] = c14KeyTok(y)
+		big[3] = c14KeyTok(y3)
 		emit("pub " + strings.Join(big, " "))
 		msg := Hex(r.Bytes(32))
 		emit("sign 65536 " + y.String() + " " + Hex(r.Bytes(32)) + " " + msg)
@@ -429,13 +429,13 @@ func genAggSigCase(r *Rand, idx int, tier string) []string {
 		if s >= 0 && s < n && privs[s] != nil {
 			ps = append(ps, privs[s].String())
 		} else {
-			ps = append(ps, randScalar(r).String())
+			ps = append(ps, c12RandScalar(r).String())
 		}
 	}
 	switch r.Intn(24) {
 	case 0: // a private key that is not the signer's
 		if len(ps) > 0 {
-			ps[r.Intn(len(ps))] = randScalar(r).String()
+			ps[r.Intn(len(ps))] = c12RandScalar(r).String()
 		}
 	case 1:
 		if len(ps) > 0 {
@@ -445,7 +445,7 @@ func genAggSigCase(r *Rand, idx int, tier string) []string {
 		if len(ps) > 0 {
 			i := r.Intn(len(ps))
 			if ps[i] != "n" {
-				ps[i] = new(big.Int).Add(parseBigTok(ps[i]), ellBig).String()
+				ps[i] = new(big.Int).Add(c12ParseBigTok(ps[i]), c12EllBig).String()
 			}
 		}
 	case 3: // a subset of the private keys
@@ -453,7 +453,7 @@ func genAggSigCase(r *Rand, idx int, tier string) []string {
 			ps = ps[:len(ps)-1]
 		}
 	case 4:
-		ps = append(ps, randScalar(r).String())
+		ps = append(ps, c12RandScalar(r).String())
 	}
 	pstr := "-"
 	if len(ps) > 0 {
@@ -461,29 +461,29 @@ func genAggSigCase(r *Rand, idx int, tier string) []string {
 	}
 	seedLen := Pick(r, []int{32, 32, 32, 32, 32, 32, 33, 48, 64, 100, 31, 0, 1})
 	msg := Hex(r.Bytes(32))
-	emit("transcript " + intsTok(signers))
+	emit("transcript " + c14IntsTok(signers))
 	seedHex := Hex(r.Bytes(seedLen))
-	sres := emit(fmt.Sprintf("sign %s %s %s %s", intsTok(signers), pstr, seedHex, msg))
+	sres := emit(fmt.Sprintf("sign %s %s %s %s", c14IntsTok(signers), pstr, seedHex, msg))
 	if !strings.HasPrefix(sres.Out, "ok") {
 		// nothing signed: verification of an arbitrary pair must fail as well
-		emit(fmt.Sprintf("verify %s %s %s %s", intsTok(signers), randScalar(r), randScalar(r), msg))
+		emit(fmt.Sprintf("verify %s %s %s %s", c14IntsTok(signers), c12RandScalar(r), c12RandScalar(r), msg))
 		if r.Chance(1, 3) {
-			emit(fmt.Sprintf("verify %s n 0 %s", intsTok(signers), msg))
+			emit(fmt.Sprintf("verify %s n 0 %s", c14IntsTok(signers), msg))
 		}
 		return lines
 	}
 	f := strings.Fields(sres.Out)
 	R, S := f[1], f[2]
-	emit(fmt.Sprintf("verify %s %s %s %s", intsTok(signers), R, S, msg))
+	emit(fmt.Sprintf("verify %s %s %s %s", c14IntsTok(signers), R, S, msg))
 	// determinism and nonce binding: same inputs again, then another message
 	for q := 1 + r.Intn(3); q > 0; q-- {
 		switch r.Intn(12) {
 		case 0:
-			emit(fmt.Sprintf("verify %s %s %s %s", intsTok(signers), R, S, Hex(r.Bytes(32))))
+			emit(fmt.Sprintf("verify %s %s %s %s", c14IntsTok(signers), R, S, Hex(r.Bytes(32))))
 		case 1: // drop a signer
 			if len(signers) >= 2 {
 				i := r.Intn(len(signers))
-				emit(fmt.Sprintf("verify %s %s %s %s", intsTok(append(append([]int{}, signers[:i]...), signers[i+1:]...)), R, S, msg))
+				emit(fmt.Sprintf("verify %s %s %s %s", c14IntsTok(append(append([]int{}, signers[:i]...), signers[i+1:]...)), R, S, msg))
 			}
 		case 2: // add a signer (a signature from a subset must not verify for the larger set)
 			for _, c := range perm {
@@ -492,65 +492,65 @@ func genAggSigCase(r *Rand, idx int, tier string) []string {
 					continue
 				}
 				bigger := append(append(append([]int{}, signers[:pos]...), c), signers[pos:]...)
-				emit(fmt.Sprintf("verify %s %s %s %s", intsTok(bigger), R, S, msg))
+				emit(fmt.Sprintf("verify %s %s %s %s", c14IntsTok(bigger), R, S, msg))
 				break
 			}
 		case 3: // same set, unsorted or duplicated
 			if len(signers) >= 2 {
 				sw := append([]int{}, signers...)
 				sw[0], sw[1] = sw[1], sw[0]
-				emit(fmt.Sprintf("verify %s %s %s %s", intsTok(sw), R, S, msg))
+				emit(fmt.Sprintf("verify %s %s %s %s", c14IntsTok(sw), R, S, msg))
 			} else {
-				emit(fmt.Sprintf("verify %s %s %s %s", intsTok(append(append([]int{}, signers...), signers[0])), R, S, msg))
+				emit(fmt.Sprintf("verify %s %s %s %s", c14IntsTok(append(append([]int{}, signers...), signers[0])), R, S, msg))
 			}
 		case 4:
-			emit(fmt.Sprintf("verify %s %s %s %s", intsTok(signers), R, modL(new(big.Int).Add(parseBigTok(S), big.NewInt(1))), msg))
+			emit(fmt.Sprintf("verify %s %s %s %s", c14IntsTok(signers), R, c12ModL(new(big.Int).Add(c12ParseBigTok(S), big.NewInt(1))), msg))
 		case 5:
-			emit(fmt.Sprintf("verify %s %s %s %s", intsTok(signers), R, new(big.Int).Add(parseBigTok(S), ellBig), msg))
+			emit(fmt.Sprintf("verify %s %s %s %s", c14IntsTok(signers), R, new(big.Int).Add(c12ParseBigTok(S), c12EllBig), msg))
 		case 6:
-			emit(fmt.Sprintf("verify %s %s %s %s", intsTok(signers), Pick(r, []string{randScalar(r).String(), "0", "x" + genBadPoint(r)}), S, msg))
+			emit(fmt.Sprintf("verify %s %s %s %s", c14IntsTok(signers), Pick(r, []string{c12RandScalar(r).String(), "0", "x" + c12GenBadPoint(r)}), S, msg))
 		case 7:
-			emit(fmt.Sprintf("verify %s n %s %s", intsTok(signers), S, msg))
+			emit(fmt.Sprintf("verify %s n %s %s", c14IntsTok(signers), S, msg))
 		case 8, 9: // key vector changed at a signer position / elsewhere
 			nt := append([]string{}, toks...)
 			i := signers[r.Intn(len(signers))]
 			if r.Chance(1, 3) {
 				i = r.Intn(n)
 			}
-			nt[i] = keyTok(randScalar(r))
+			nt[i] = c14KeyTok(c12RandScalar(r))
 			emit("pub " + strings.Join(nt, " "))
-			emit(fmt.Sprintf("verify %s %s %s %s", intsTok(signers), R, S, msg))
+			emit(fmt.Sprintf("verify %s %s %s %s", c14IntsTok(signers), R, S, msg))
 			emit("pub " + strings.Join(toks, " "))
 		case 10: // two signers exchange their positions in the vector
 			if len(signers) >= 2 {
 				nt := append([]string{}, toks...)
 				nt[signers[0]], nt[signers[1]] = nt[signers[1]], nt[signers[0]]
 				emit("pub " + strings.Join(nt, " "))
-				emit(fmt.Sprintf("verify %s %s %s %s", intsTok(signers), R, S, msg))
+				emit(fmt.Sprintf("verify %s %s %s %s", c14IntsTok(signers), R, S, msg))
 				emit("pub " + strings.Join(toks, " "))
 			}
 		default: // rogue key: the attacker owns x' and publishes A' = x'•B − A₀, then signs alone with x'
 			if privs[signers[0]] == nil {
 				break
 			}
-			xp := randScalar(r)
-			rogue := modL(new(big.Int).Sub(xp, privs[signers[0]]))
+			xp := c12RandScalar(r)
+			rogue := c12ModL(new(big.Int).Sub(xp, privs[signers[0]]))
 			if rogue.Sign() == 0 {
 				break
 			}
-			emit("pub " + toks[signers[0]] + " " + keyTok(rogue))
-			as := aggGet(sh)
+			emit("pub " + toks[signers[0]] + " " + c14KeyTok(rogue))
+			as := c14AggGet(sh)
 			A, _, _, ok := as.oracles([]int{0, 1})
 			if !ok {
 				panic("harness: rogue vector refused")
 			}
-			kk := randScalar(r)
-			Rp := pointOf(kk)
+			kk := c12RandScalar(r)
+			Rp := c12PointOf(kk)
 			var m crypto.Hash
 			copy(m[:], UnHex(msg))
-			cb, _ := crypto.VerifAggregateChallenge(Rp[:], A[:], m)
-			c := bytesScalar(cb[:])
-			Sf := modL(new(big.Int).Add(kk, new(big.Int).Mul(c, xp)))
+			cb, _ := crypto.VerifC14AggregateChallenge(Rp[:], A[:], m)
+			c := c12BytesScalar(cb[:])
+			Sf := c12ModL(new(big.Int).Add(kk, new(big.Int).Mul(c, xp)))
 			emit(fmt.Sprintf("verify 0,1 %s %s %s", kk, Sf, msg))
 			emit("pub " + strings.Join(toks, " "))
 		}
@@ -558,11 +558,11 @@ func genAggSigCase(r *Rand, idx int, tier string) []string {
 	if r.Chance(1, 2) { // nonce separation: same keys and seed, another message / another seed / the same again
 		switch r.Intn(3) {
 		case 0:
-			emit(fmt.Sprintf("sign %s %s %s %s", intsTok(signers), pstr, seedHex, Hex(r.Bytes(32))))
+			emit(fmt.Sprintf("sign %s %s %s %s", c14IntsTok(signers), pstr, seedHex, Hex(r.Bytes(32))))
 		case 1:
-			emit(fmt.Sprintf("sign %s %s %s %s", intsTok(signers), pstr, Hex(r.Bytes(32)), msg))
+			emit(fmt.Sprintf("sign %s %s %s %s", c14IntsTok(signers), pstr, Hex(r.Bytes(32)), msg))
 		default:
-			emit(fmt.Sprintf("sign %s %s %s %s", intsTok(signers), pstr, seedHex, msg))
+			emit(fmt.Sprintf("sign %s %s %s %s", c14IntsTok(signers), pstr, seedHex, msg))
 		}
 	}
 	return lines
@@ -576,10 +576,10 @@ func init() {
 			"foreign/nil/non-canonical/missing/extra private key or a short seed), then AggregateVerify of the result and of 1..3 " +
 			"mutations (message, dropped/added signer, order, S±, R, nil, changed or permuted key vector, rogue-key cancellation); " +
 			"non-trivial = the real call accepted; distinct = distinct op line",
-		Gen:  genAggSigCase,
-		Exec: execAggSig,
+		Gen:  c14GenAggSigCase,
+		Exec: c14ExecAggSig,
 		Corpus: [][]string{
-			{"reset", "pub " + keyTok(big.NewInt(5)) + " " + keyTok(big.NewInt(7)), "transcript 0,1", "transcript 1,0", "transcript 0,0", "transcript -", "transcript 0,2",
+			{"reset", "pub " + c14KeyTok(big.NewInt(5)) + " " + c14KeyTok(big.NewInt(7)), "transcript 0,1", "transcript 1,0", "transcript 0,0", "transcript -", "transcript 0,2",
 				"sign 0,1 5,7 " + strings.Repeat("11", 32) + " " + strings.Repeat("22", 32), "sign 0,1 5 " + strings.Repeat("11", 32) + " " + strings.Repeat("22", 32),
 				"sign 0,1 5,7 " + strings.Repeat("11", 31) + " " + strings.Repeat("22", 32)},
 		},
